@@ -731,3 +731,61 @@ func unqualified(s string) string {
 	sb.WriteString(s[start:])
 	return sb.String()
 }
+
+// constTable: x names a package-level map that is initialised by a literal with constant keys (at most 48) and is
+// never written afterwards; its entries.
+func (p *Program) constTable(x ast.Expr) []*ast.KeyValueExpr {
+	g, ok := objOf(p.Info, x).(*types.Var)
+	if !ok || g.Pkg() == nil || g.Parent() != g.Pkg().Scope() {
+		return nil
+	}
+	if _, isMap := g.Type().Underlying().(*types.Map); !isMap {
+		return nil
+	}
+	if p.constTables == nil {
+		p.constTables = map[*types.Var][]*ast.KeyValueExpr{}
+	}
+	if t, done := p.constTables[g]; done {
+		return t
+	}
+	var entries []*ast.KeyValueExpr
+	if p.globalNeverWritten(g) {
+		for _, pkg := range p.All {
+			for _, f := range pkg.Syntax {
+				for _, d := range f.Decls {
+					gd, ok := d.(*ast.GenDecl)
+					if !ok || gd.Tok != token.VAR {
+						continue
+					}
+					for _, sp := range gd.Specs {
+						vs := sp.(*ast.ValueSpec)
+						for i, n := range vs.Names {
+							if p.Info.Defs[n] != g || i >= len(vs.Values) {
+								continue
+							}
+							cl, ok := ast.Unparen(vs.Values[i]).(*ast.CompositeLit)
+							if !ok || len(cl.Elts) == 0 || len(cl.Elts) > 48 {
+								continue
+							}
+							good := true
+							var es []*ast.KeyValueExpr
+							for _, el := range cl.Elts {
+								kv, ok := el.(*ast.KeyValueExpr)
+								if !ok || constOf(p.Info, kv.Key) == nil {
+									good = false
+									break
+								}
+								es = append(es, kv)
+							}
+							if good {
+								entries = es
+							}
+						}
+					}
+				}
+			}
+		}
+	}
+	p.constTables[g] = entries
+	return entries
+}
